@@ -195,6 +195,45 @@ theorem abs_unmarkDiscreteWith_eq {M : Cqm} (hwf : CqmWF M) (hl : CqmLabelsOK M)
   rw [h1, hcons]
   rfl
 
+/-! ### the overlap test (`v in some discrete constraint`) on the list of polynomials -/
+
+/-- `any(v in cqm.constraints[l].lhs.variables for l in cqm.discrete)` — what `remove_variable` refuses on and what
+    `add_discrete(..., check_overlaps=True)` tests — on (list of polynomials, `is_linear()` flags) -/
+def LCqm.inDiscreteWith (s : LCqm) (lin : List Bool) (v : Label) : Bool :=
+  (s.cons.zip lin).any fun pb => pb.1.2.discrete && pb.1.2.isOnehotWith s.info pb.2 && decide (v ∈ pb.1.2.p.vars)
+
+theorem flipfn_zip3_any {κ α β : Type} (l : List α) (f : α → β) (g : α → Bool) (h : (κ × β) × Bool → Bool) (h' : α → Bool) :
+    ∀ (ks : List κ), ks.length = l.length → (∀ k, ∀ a ∈ l, h ((k, f a), g a) = h' a) →
+      ((ks.zip (l.map f)).zip (l.map g)).any h = l.any h' := by
+  induction l with
+  | nil => intro ks _ _; cases ks <;> rfl
+  | cons a t ih =>
+    intro ks hlen hh
+    cases ks with
+    | nil => cases hlen
+    | cons k kt =>
+      simp only [List.map_cons, List.zip_cons_cons, List.any_cons]
+      rw [hh k a List.mem_cons_self, ih kt (by simpa using hlen) (fun k' a' ha' => hh k' a' (List.mem_cons_of_mem _ ha'))]
+
+theorem inDiscrete_abs {M : Cqm} (hwf : CqmWF M) (hl : CqmLabelsOK M) {g : Nat} {v : Label} (hg : M.labels[g]? = some v) :
+    M.inDiscrete g = (absCqm M).inDiscreteWith (linFlags M) v := by
+  unfold Cqm.inDiscrete LCqm.inDiscreteWith
+  show _ = ((M.clabels.zip (M.cons.map (absCons M.labels))).zip (M.cons.map (·.e.qb.isLinear))).any _
+  symm
+  apply flipfn_zip3_any _ _ _ _ _ _ hwf.clabels_len
+  intro k c hc
+  have hwfc := hwf.cons c hc
+  have hltc := hwf.cons_lt c hc
+  have hoh := flipfn_isOnehot_abs hwfc M.vt M.lb M.ub M.labels hl.labels_nodup hwf.labels_len hltc
+  have hhv := flipfn_hasVar_iff hwfc hl.labels_nodup (fun g hg => by rw [hwf.labels_len]; exact hltc g hg) hg
+  have hd : decide (v ∈ (absExpr M.labels c.e).vars) = c.e.hasVar g := by
+    rw [Bool.eq_iff_iff, decide_eq_true_iff]; exact hhv.symm
+  show (c.discrete && (absCons M.labels c).isOnehotWith (absCqm M).info c.e.qb.isLinear
+        && decide (v ∈ (absExpr M.labels c.e).vars)) = (c.isDiscrete M.vt && c.e.hasVar g)
+  unfold Cons.isDiscrete
+  rw [hoh, hd]
+  rfl
+
 /-! ### `flip_variable` as ONE function, and the per-step / history statements for every operation -/
 
 /-- **`flip_variable(v)` on (list of polynomials, `is_linear()` flags)**: SPIN `s ↦ −s`; BINARY `x ↦ 1 − x` and the marks;
